@@ -12,9 +12,55 @@ PAT_ARGS = {  # positions of sub-patterns (single) per constructor
     'unop': [2], 'binop': [2, 3], 'narop': [2, 3, 4]}
 
 
+def derive(t):
+    """Replace every seeded random pattern by the deterministic pattern it denotes for the draws
+    `random.Random(seed)` delivers (the Mersenne Twister is the oracle stream, not modelled):
+    Pseed re-seeds for every pass, so the same pass is repeated for ever."""
+    import random as _random
+    if not isinstance(t, list) or not t or not isinstance(t[0], str):
+        return t
+    k = t[0]
+    if k == 'pseed':
+        seed, rp = t[1], t[2]
+        items = [derive(x) for x in rp[1]]
+        size, n = len(items), rp[2]
+        R = _random.Random(seed)
+        if rp[0] == 'prand':                       # n items, each lst[rand(size)]
+            idx = [R.randrange(0, size, 1) for _ in range(n)]
+            one = ['switch', items, ['seq', [['const', ['i', i]] for i in idx], 1, 0]] if n else \
+                ['len', ['const', ['i', 0]], 0]
+        elif rp[0] == 'pxrand':                    # never the same index twice in a row
+            i = R.randrange(0, size, 1) if size >= 1 else 0
+            idx = []
+            for _ in range(n):
+                d = R.randrange(0, size - 1, 1) if size - 1 >= 1 else 0
+                i = (i + d + 1) % size
+                idx.append(i)
+            one = ['switch', items, ['seq', [['const', ['i', i]] for i in idx], 1, 0]] if n else \
+                ['len', ['const', ['i', 0]], 0]
+        elif rp[0] == 'pshuffle':                  # one shuffle per pass, then n times through
+            perm = list(range(size))
+            R.shuffle(perm)
+            one = ['seq', [items[i] for i in perm], n, 0]
+        else:
+            raise ValueError(rp)
+        return ['pn', one, 'inf']
+    if k == 'place':
+        return ['place', [({'sub': [derive(y) for y in x['sub']], **({'tuple': True} if x.get('tuple') else {})}
+                           if isinstance(x, dict) else derive(x)) for x in t[1]]] + t[2:]
+    out = list(t)
+    for i in LIST_KEYS.get(k, []):
+        out[i] = [derive(x) for x in t[i]]
+    for i in PAT_ARGS.get(k, []):
+        out[i] = derive(t[i])
+    return out
+
+
 def subpats(t):
     out = []
     k = t[0]
+    if k == 'pseed':
+        return list(t[2][1])
     for i in LIST_KEYS.get(k, []):
         out.extend(t[i])
     if k == 'place':
@@ -142,6 +188,8 @@ class Gen:
             return self.c(['b', r.randint(0, 1)] if r.random() < 0.8 else ['i', r.randint(0, 2)])
         if kind == 'list':
             return self.c(self.list_val(2))
+        if kind == 'tup':
+            return self.c(['t'] + [self.num_val() for _ in range(self.r.randint(0, 3))])
         raise ValueError(kind)
 
     def list_val(self, d):
@@ -210,7 +258,7 @@ class Gen:
         if d <= 0:
             return self.leaf(kind)
         if r.random() < 0.03:          # malformed stream: wrong kind of operand
-            kind = r.choice(['num', 'list', 'bool', 'idx', 'cnt'])
+            kind = r.choice(['num', 'list', 'bool', 'idx', 'cnt', 'tup'])
         if kind in ('idx', 'cnt', 'int'):
             x = r.random()
             if x < 0.25:
@@ -233,6 +281,14 @@ class Gen:
                 return ['seq', self.items('bool', d, 1, 5), self.rep(), 0]
             return ['binop', r.choice(['lt', 'le', 'gt', 'ge']), self.pat('num', d - 1), self.pat('num', d - 1),
                     r.choice(['op', 'cls'])]
+        if kind == 'tup':
+            x = r.random()
+            if x < 0.75:
+                return ['tuple', [self.pat(r.choice(['num', 'num', 'idx', 'bool', 'list']), d - 1) if r.random() < 0.6
+                                  else self.leaf('num') for _ in range(r.randint(1, 4))], self.rep()]
+            if x < 0.9:
+                return ['seq', [self.pat('tup', d - 1) for _ in range(r.randint(1, 3))], self.rep(), 0]
+            return ['len', self.pat('tup', d - 1), r.randint(0, 6)]
         if kind == 'list':
             x = r.random()
             if x < 0.3:
@@ -244,6 +300,9 @@ class Gen:
             return self.leaf('list')
         # num
         x = r.random()
+        if x < 0.06:
+            return ['pseed', r.randint(0, 99),
+                    [r.choice(['prand', 'pxrand', 'pshuffle']), self.items('num', d, 1, 5), r.randint(0, 5)]]
         if x < 0.3:
             return self.listpat('num', d)
         if x < 0.36:
@@ -310,7 +369,7 @@ class Gen:
 
 
 def top_kind(rng):
-    return rng.choice(['num'] * 7 + ['list', 'bool', 'idx'])
+    return rng.choice(['num'] * 7 + ['list', 'bool', 'idx', 'tup', 'tup'])
 
 
 class Check(common.Check):
@@ -341,7 +400,7 @@ class Check(common.Check):
                 continue
             ops = g.ops()
             n = sum(1 for o in ops if o[0] == 'next')
-            obs, flags = orc.observe(t, n + 2)
+            obs, flags = orc.observe(derive(t), n + 2)
             if flags:
                 continue
             return {'pat': t, 'ops': ops, 'inval': rng.choice([0, 0, 1, 2])}
@@ -360,7 +419,7 @@ class Check(common.Check):
         lines = []
         for c in cases:
             lines.append('reset')
-            lines.append('pat ' + sx(c['pat']))
+            lines.append('pat ' + sx(derive(c['pat'])))
             for o in c['ops']:
                 lines.append('new' if o[0] == 'new' else f'next {o[1]}')
             lines.append(f'den {self.DEN_K} {self.DEN_N}')
@@ -384,7 +443,7 @@ class Check(common.Check):
     def expected(self, case):
         """Oracle: outputs of every op according to the documented meaning."""
         n = sum(1 for o in case['ops'] if o[0] == 'next')
-        obs, flags = orc.observe(case['pat'], n + 2)
+        obs, flags = orc.observe(derive(case['pat']), n + 2)
         if flags:
             return None
         pos, out = [], []
@@ -409,7 +468,7 @@ class Check(common.Check):
         den = model_out['den']
         if den is None:
             return {'model': 'no den line'}
-        obs, flags = orc.observe(case['pat'], self.DEN_N + 1)
+        obs, flags = orc.observe(derive(case['pat']), self.DEN_N + 1)
         if flags:
             return None
         d = den.split(' ')
@@ -471,6 +530,15 @@ class Check(common.Check):
         ops = common.shrink_list(cur['ops'][1:], lambda o: self._ops_ok(o) and fails(dict(cur, ops=[['new']] + o)),
                                  max_steps=60)
         return dict(cur, ops=[['new']] + ops)
+
+    def _still_violates(self, case, v):
+        # while shrinking only the kind of failure has to stay the same (the class in the
+        # signature is the top class of the final, smallest term)
+        outs = self.impl([case])
+        if not outs:
+            return False
+        w = self.oracle(case, outs[0])
+        return bool(w) and w['signature'].split(':')[0] == str(v.get('signature')).split(':')[0]
 
     @staticmethod
     def _ops_ok(ops):
